@@ -1,6 +1,7 @@
 package main
 
 import (
+	"os"
 	"fmt"
 	"go/constant"
 	"go/types"
@@ -83,6 +84,198 @@ func (g *Global) checkWhitelist(wl *Whitelist) []*Obligation {
 		return []*Obligation{o}
 	case "owned":
 		return []*Obligation{g.checkOwned(wl, o)}
+	case "intx":
+		targets := strings.Split(wl.Target, ",")
+		isTarget := func(c *ssa.CallCommon) bool {
+			for _, n := range calleeNames(c) {
+				if contains(targets, n) {
+					return true
+				}
+			}
+			return false
+		}
+		var openers, wrappers []string
+		for _, a := range wl.Allowed {
+			if strings.HasPrefix(a, "via ") {
+				wrappers = append(wrappers, strings.TrimSpace(strings.TrimPrefix(a, "via ")))
+			} else {
+				openers = append(openers, a)
+			}
+		}
+		useWrappers := false
+		isOpener := func(c *ssa.CallCommon) bool {
+			for _, n := range calleeNames(c) {
+				if contains(openers, n) || (useWrappers && contains(wrappers, n)) {
+					return true
+				}
+			}
+			return false
+		}
+		if os.Getenv("RAINVC_DEBUG_INTX") != "" {
+			for _, fn := range g.allFns {
+				if !isRainFn(fn) {
+					continue
+				}
+				for _, b := range fn.Blocks {
+					for _, in := range b.Instrs {
+						if ci, ok := in.(ssa.CallInstruction); ok && strings.Contains(fmt.Sprint(calleeNames(ci.Common())), "Update") {
+							fmt.Fprintln(os.Stderr, "intx-debug:", fnID(fn), calleeNames(ci.Common()))
+						}
+					}
+				}
+			}
+		}
+		// callers of named rain functions (static calls only)
+		callersOf := map[*ssa.Function][]*ssa.Function{}
+		valueUse := map[*ssa.Function]bool{}
+		for _, fn := range g.allFns {
+			if !isRainFn(fn) {
+				continue
+			}
+			for _, b := range fn.Blocks {
+				for _, in := range b.Instrs {
+					if ci, ok := in.(ssa.CallInstruction); ok {
+						if callee := ci.Common().StaticCallee(); callee != nil {
+							callersOf[callee] = append(callersOf[callee], fn)
+						}
+					}
+					var ops []*ssa.Value
+					for _, op := range in.Operands(ops) {
+						if op == nil || *op == nil {
+							continue
+						}
+						if f, ok := (*op).(*ssa.Function); ok {
+							if ci, isCall := in.(ssa.CallInstruction); isCall && ci.Common().Value == f {
+								continue
+							}
+							if _, isMC := in.(*ssa.MakeClosure); isMC {
+								continue
+							}
+							valueUse[f] = true
+						}
+					}
+				}
+			}
+		}
+		var confined func(fn *ssa.Function, depth int, seen map[*ssa.Function]bool) bool
+		confined = func(fn *ssa.Function, depth int, seen map[*ssa.Function]bool) bool {
+			if depth > 6 || seen[fn] {
+				return false
+			}
+			seen[fn] = true
+			defer delete(seen, fn)
+			if parent := fn.Parent(); parent != nil {
+				// a literal: every closure made from it goes straight into an opener call
+				found := false
+				for _, b := range parent.Blocks {
+					for _, in := range b.Instrs {
+						mc, ok := in.(*ssa.MakeClosure)
+						if !ok || mc.Fn != fn {
+							continue
+						}
+						found = true
+						refs := mc.Referrers()
+						if refs == nil {
+							return false
+						}
+						for _, r := range *refs {
+							switch r := r.(type) {
+							case *ssa.DebugRef:
+							case ssa.CallInstruction:
+								if _, isGo := r.(*ssa.Go); isGo || !isOpener(r.Common()) || r.Common().Value == mc {
+									return false
+								}
+							default:
+								return false
+							}
+						}
+					}
+				}
+				if !found {
+					// a literal without captured variables is a plain function value in its parent
+					for _, b := range parent.Blocks {
+						for _, in := range b.Instrs {
+							var ops []*ssa.Value
+							for _, op := range in.Operands(ops) {
+								if op == nil || *op != ssa.Value(fn) {
+									continue
+								}
+								if _, isDbg := in.(*ssa.DebugRef); isDbg {
+									continue
+								}
+								found = true
+								ci, isCall := in.(ssa.CallInstruction)
+								if _, isGo := in.(*ssa.Go); !isCall || isGo || !isOpener(ci.Common()) || ci.Common().Value == fn {
+									return false
+								}
+							}
+						}
+					}
+				}
+				return found
+			}
+			if valueUse[fn] || len(callersOf[fn]) == 0 {
+				return false
+			}
+			for _, c := range callersOf[fn] {
+				if !confined(c, depth+1, seen) {
+					return false
+				}
+			}
+			return true
+		}
+		// a wrapper runs its function argument only inside a literal handed to a real opener:
+		// every call through a function value in the wrapper (and in its literals) is confined
+		// with respect to the real openers, and there is at least one
+		for _, fn := range g.allFns {
+			if !isRainFn(fn) {
+				continue
+			}
+			top := fn
+			for top.Parent() != nil {
+				top = top.Parent()
+			}
+			isW := false
+			for _, n := range fnNames(top) {
+				if contains(wrappers, n) {
+					isW = true
+				}
+			}
+			if !isW {
+				continue
+			}
+			for _, b := range fn.Blocks {
+				for _, in := range b.Instrs {
+					ci, ok := in.(ssa.CallInstruction)
+					if !ok || ci.Common().IsInvoke() || ci.Common().StaticCallee() != nil || staticClosure(ci.Common().Value) != nil {
+						continue
+					}
+					if _, isBI := ci.Common().Value.(*ssa.Builtin); isBI {
+						continue
+					}
+					sites++
+					if !confined(fn, 0, map[*ssa.Function]bool{}) {
+						offenders["wrapper "+shortID(fnID(fn))+" calls its argument outside a transaction ("+posOf(fn, in.Pos())+")"] = true
+					}
+				}
+			}
+		}
+		useWrappers = true
+		for _, fn := range g.allFns {
+			if !isRainFn(fn) {
+				continue
+			}
+			for _, b := range fn.Blocks {
+				for _, in := range b.Instrs {
+					if ci, ok := in.(ssa.CallInstruction); ok && isTarget(ci.Common()) {
+						sites++
+						if !confined(fn, 0, map[*ssa.Function]bool{}) {
+							offenders[shortID(fnID(fn))+" ("+posOf(fn, in.Pos())+")"] = true
+						}
+					}
+				}
+			}
+		}
 	case "callers":
 		for _, fn := range g.allFns {
 			if fn.Synthetic != "" && !strings.Contains(fn.Synthetic, "instance") {
